@@ -91,8 +91,16 @@ def check(ctx, run):
 
     # "in each repetition ... these three counts sum to the number of registered tests": the counters live in a TestResult
     # that must be fresh for every repetition
-    from .shared import fresh_result_per_repetition
-    fresh_result_per_repetition(prog, run, "R1")
+    from .shared import runner_fold
+    try:
+        for nrep in (1, 2, 3):
+            r_, events = runner_fold(prog, [(0, 0)] * nrep)
+            runs = [e for e in events if e[0] in ("new-result", "runAllTests")]
+            ok = runs == [("new-result",), ("runAllTests",)] * nrep
+            run.ob("R1", "runner folded over %d repetition(s): each repetition runs the registry once on a fresh TestResult" % nrep, "src/CppUTest/CommandLineTestRunner.cpp:CommandLineTestRunner::runAllTests", ok,
+                   witness=[e[0] for e in runs], what="" if ok else "counts of earlier repetitions leak into later summaries")
+    except Unknown as u:
+        run.broke("C02.R1: the runner cannot be folded: %s" % u)
 
     # ---------------- R2 ----------------------------------------------------
     sr = prog.fn("UtestShell::shouldRun")
